@@ -332,6 +332,10 @@ func EqOff(a, b *Term) *Term {
 		if isPreRegion(a) && isCallAlloc(b) || isPreRegion(b) && isCallAlloc(a) {
 			return False
 		}
+		// a value obtained at some point cannot name an allocation made later
+		if notAfter(a, b) || notAfter(b, a) {
+			return False
+		}
 	}
 	if a.sort != BoolSort && !(a.IsConst() && b.IsConst()) {
 		ba, ca := splitOff(a)
@@ -516,4 +520,51 @@ func ltOff(a, b *Term) *Term {
 		return BoolConst(ca < cb)
 	}
 	return BVUlt(a, b)
+}
+
+// regionNotAfter: for region-valued variables, the allocation counter when the
+// value was obtained; the value cannot be a region allocated after that.
+var regionNotAfter = map[int]uint64{}
+
+func notAfter(v, c *Term) bool {
+	if c.op != "const" || c.val.Uint64()>>60 != 0xF {
+		return false
+	}
+	id := c.val.Uint64() & 0x0FFFFFFFFFFFFFFF
+	switch v.op {
+	case "var":
+		lim, ok := regionNotAfter[v.id]
+		return ok && id > lim
+	case "ite":
+		return notAfter(v.args[1], c) && notAfter(v.args[2], c)
+	}
+	return false
+}
+
+// effectiveMem skips the newest nodes of a chain that cannot concern region r,
+// so that memory states differing only in unrelated (e.g. freshly allocated)
+// regions get the same version identity for reads of r.
+func effectiveMem(m *Mem, r *Term) *Mem {
+	for m != nil {
+		var nr *Term
+		switch m.kind {
+		case MWrite:
+			if len(m.keys) == 2 {
+				nr = m.keys[0]
+			}
+		case MCopy, MFill, MHavoc:
+			nr = m.region
+		case MHavocFresh:
+			if regionMask(r)&(1<<15) == 0 {
+				m = m.prev
+				continue
+			}
+		}
+		if nr != nil && EqOff(nr, r) == False {
+			m = m.prev
+			continue
+		}
+		break
+	}
+	return m
 }
